@@ -54,6 +54,17 @@ def call_builtin(world, eng, p, h, args, kws):
     # ---- python builtins
     if n == 'builtins.isinstance':
         x, c = args
+        if isinstance(c, tuple):
+            rs_ = []
+            for ci in c:
+                (_, r), = call_builtin(world, eng, p, h, [x, ci], {})
+                rs_.append(r)
+            if any(r is True for r in rs_): return [(p, True)]
+            sym = [r for r in rs_ if r is not False]
+            return [(p, SBool(Or(*[r.t for r in sym])) if sym else False)]
+        if isinstance(c, Host) and c.kind == 'builtin' and c.name.split('.')[-1] in ('MuxConnectableProxy', 'ConnectableObservable'):
+            if isinstance(x, Host):
+                return [(p, bool(getattr(x, 'is_connectable', False)))]
         if isinstance(c, EvClass):
             return [(p, isinstance(x, EventV) and x.kind == c.kind)]
         if isinstance(c, Host) and c.kind == 'builtin' and c.name == 'rxsci.mux.muxobservable.MuxObservable':
@@ -70,6 +81,7 @@ def call_builtin(world, eng, p, h, args, kws):
         if isinstance(x, SVal): return [(p, SType(x))]
         if isinstance(x, Host) and x.kind == 'foreign': return [(p, PyType('foreign'))]
         if isinstance(x, Host) and x.kind == 'opaque': return [(p, PyType('opaque_object'))]
+        if isinstance(x, Host) and x.kind in ('pipe', 'rxop'): return [(p, PyType('function'))]
         t = static_type(p, x)
         if t is None: raise Unsupported(f'type({x!r})')
         return [(p, PyType(t))]
